@@ -10,6 +10,7 @@ mod cmd_core;
 mod cmd_fuzz;
 mod cmd_typecheck;
 mod cmd_conform;
+mod cmd_symcc;
 
 /// Command families.  To add one: create src/cmd_xxx.rs with
 /// `pub fn dispatch(cmd: &str, v: &J) -> Option<Result<J, String>>`, add `mod cmd_xxx;` above
@@ -19,6 +20,7 @@ const FAMILIES: &[fn(&str, &J) -> Option<Result<J, String>>] = &[
     cmd_fuzz::dispatch,
     cmd_typecheck::dispatch,
     cmd_conform::dispatch,
+    cmd_symcc::dispatch,
 ];
 
 fn dispatch(cmd: &str, v: &J) -> Result<J, String> {
